@@ -64,6 +64,18 @@ CLAIMED = {
                 "correct or the characterised wrong value is accepted.",
         "design_ref": "DESIGN.md §3 C09",
     },
+    "C19": {
+        "text": "The real _load_offsets and the real C pickle.load are executed over a file proxy whose length k is a z3 "
+                "integer in [0, N] (shipped cache and 7 other contents: wrong-shape pickles, non-pickle bytes), plus the "
+                "missing-file case, with and without BUILD_TZ_CACHE: every read forks on k, so the solver partitions all "
+                "cut points into classes; per class the obligation 'no exception escapes, the table equals the rebuilt "
+                "one, a complete cache is written back and a second load accepts it' is decided; one witness per class "
+                "(both ends for violated classes) is replayed as a real truncated file in a scratch package copy with "
+                "python -c 'import dateparser' run twice.",
+        "design_ref": "DESIGN.md §3 C19",
+        "technique": "z3-decided symbolic execution of the real loader over a symbolic-length file (symx core), real C "
+                     "unpickler in the loop; class witnesses replayed on real files",
+    },
 }
 
 NOT_APPLICABLE = {
